@@ -340,11 +340,17 @@ func verify(s *proj.Server, c Case, r Request, evs []string, uevents []univ.Even
 			roots = append(roots, rk)
 		}
 	}
-	for _, rk := range roots {
+	// the fields of a root object reached again below the root are run as root fields once more
+	rootCount := map[string]int{}
+	for _, rk := range append(append([]string{}, roots...), ref.NestedRootKeys...) {
+		rootCount[rk]++
 		for _, i := range order("root") {
 			want[fmt.Sprintf("root-enter %d @%s", i, rk)]++
 			want[fmt.Sprintf("root-exit %d @%s", i, rk)]++
 		}
+	}
+	if len(ref.NestedRootKeys) > 0 {
+		vfrun.Label("root-object-below-the-root")
 	}
 	for _, p := range ref.Fields {
 		for _, i := range order("field") {
@@ -437,6 +443,9 @@ func verify(s *proj.Server, c Case, r Request, evs []string, uevents []univ.Even
 		return f
 	}
 	for _, rk := range roots {
+		if rootCount[rk] != 1 {
+			continue // the same response key below the root as well: the two sequences interleave
+		}
 		if f := checkNest("root-enter", "root-exit", " @"+rk, order("root")); f != nil {
 			return f
 		}
